@@ -129,6 +129,74 @@ theorem names_stay_distinct (d : Dir) (uid : String) (content : List UInt8) (h :
 example : (storeAll [] [("1.2", [1]), ("1.2", [2]), ("9", [3]), ("1.2", [4])]).map (·.1)
     = [("1.2", 0), ("1.2", 1), ("9", 0), ("1.2", 2)] := by decide
 
+/-! ### histories in which files are also taken away by something else -/
+
+theorem applyOp_store (d : Dir) (u : String) (c : List UInt8) :
+    applyOp d (.store u c) = d ++ [(freshName d u, c)] := by
+  simp [applyOp, store_never_clobbers]
+
+/-- one step keeps every file it does not remove, name and content -/
+theorem op_keeps_others (d : Dir) (op : DirOp) (e : Name × List UInt8) (he : e ∈ d)
+    (hk : ∀ n, op = .remove n → e.1 ≠ n) : e ∈ applyOp d op := by
+  cases op with
+  | store u c => rw [applyOp_store]; exact List.mem_append_left _ he
+  | remove n =>
+    simp only [applyOp, List.mem_filter, Bool.not_eq_eq_eq_not, Bool.not_true, beq_eq_false_iff_ne, ne_eq]
+    exact ⟨he, hk n rfl⟩
+
+/-- **any history of stores and removals**: a file that is in the directory and is never removed is still there,
+with the same content, at the end - whatever was stored (same instance or others) and removed around it -/
+theorem ops_keep_unremoved (d : Dir) (ops : List DirOp) (e : Name × List UInt8) (he : e ∈ d)
+    (hk : ∀ n, DirOp.remove n ∈ ops → e.1 ≠ n) : e ∈ applyOps d ops := by
+  induction ops generalizing d with
+  | nil => exact he
+  | cons op rest ih =>
+    simp only [applyOps]
+    apply ih
+    · exact op_keeps_others d op e he (fun n h => hk n (by simp [h]))
+    · intro n hn; exact hk n (by simp [hn])
+
+/-- ... and every store of the history adds exactly one file, under a name no file had at that moment -/
+theorem store_in_history_is_fresh (d : Dir) (ops : List DirOp) (u : String) (c : List UInt8) :
+    applyOps d (ops ++ [.store u c]) = applyOps d ops ++ [(freshName (applyOps d ops) u, c)] ∧
+    exists? (applyOps d ops) (freshName (applyOps d ops) u) = false := by
+  constructor
+  · induction ops generalizing d with
+    | nil => simp [applyOps, applyOp_store]
+    | cons op rest ih => simp only [List.cons_append, applyOps]; exact ih _
+  · exact freshName_new _ _
+
+theorem filter_names_nodup (d : Dir) (n : Name) (h : (d.map (·.1)).Nodup) :
+    ((d.filter (fun e => !(e.1 == n))).map (·.1)).Nodup := by
+  induction d with
+  | nil => simp
+  | cons x xs ih =>
+    simp only [List.map_cons, List.nodup_cons] at h
+    simp only [List.filter_cons]
+    split
+    · simp only [List.map_cons, List.nodup_cons]
+      refine ⟨?_, ih h.2⟩
+      intro hm
+      obtain ⟨e, he, hen⟩ := List.mem_map.mp hm
+      exact h.1 (List.mem_map.mpr ⟨e, (List.mem_filter.mp he).1, hen⟩)
+    · exact ih h.2
+
+/-- names stay distinct through any history of stores and removals -/
+theorem ops_names_distinct (d : Dir) (ops : List DirOp) (h : (d.map (·.1)).Nodup) :
+    ((applyOps d ops).map (·.1)).Nodup := by
+  induction ops generalizing d with
+  | nil => exact h
+  | cons op rest ih =>
+    simp only [applyOps]
+    apply ih
+    cases op with
+    | store u c => exact names_stay_distinct d u c h
+    | remove n => exact filter_names_nodup d n h
+
+/-- the history a counting implementation gets wrong: two copies, the first taken away, a third store -/
+example : (applyOps [] [.store "1.2" [1], .store "1.2" [2], .remove ("1.2", 0), .store "1.2" [3]])
+    = [(("1.2", 1), [2]), (("1.2", 0), [3])] := by decide
+
 /-! ### the data set end to end: fragmentation, PDU encoding, any TCP segmentation, framing, PDU decoding,
 reassembly — the composition of C06, C01, C03 and C07 -/
 open Dicom
